@@ -36,6 +36,7 @@ type Prog struct {
 	cg       *callgraph.Graph
 	chaCG    *callgraph.Graph
 	WithCHA  bool
+	CHAExtra int // callees added by the CHA cross-check (thorough)
 
 	edgeCache map[*ssa.Function][]*ssa.Function
 }
